@@ -102,7 +102,7 @@ def find_items(toks, kind, name):
                     j = match_close(toks, j)
                 j += 1
             end, body = j + 1, None
-        elif kind == "struct":
+        elif kind in ("struct", "trait"):
             j = i
             while toks[j].text not in ("{", ";"):
                 if toks[j].text in "([":
@@ -122,8 +122,8 @@ def find_items(toks, kind, name):
 def select(toks, kind, name, ctx=None, nth=None):
     cands = find_items(toks, kind, name)
     if ctx:
-        want = " ".join(ctx.split())
-        cands = [c for c in cands if any(want in " ".join(h.split()) for h in c[3])]
+        want = "".join(ctx.split())
+        cands = [c for c in cands if any(want in "".join(h.split()) for h in c[3])]
     # ignore items inside `mod tests`
     cands = [c for c in cands if not any(h.strip().endswith("mod tests") or "mod test" in h for h in c[3])]
     if nth is not None:
